@@ -5,7 +5,7 @@ from fractions import Fraction
 
 from sa.report import Cx
 from sa.walker import WalkOptions
-from sa.terms import (Sym, Attr, Sub, App, Num, Const, Fresh, AIs, ATruthy, f_and, f_not, implies, compare, mk_cmp, add)
+from sa.terms import (Sym, Attr, Sub, App, Num, Const, Fresh, TupleT, CompInfo, AIs, ATruthy, f_and, f_not, implies, compare, mk_cmp, add)
 from .common import CORE, COLL, check_forwarding_chain, const_default, order_class, strip_versions
 
 PID = 'C17'
@@ -59,12 +59,20 @@ def run(cx: Cx):
         evs = p.events
         apps = [e for e in evs if e.kind == 'store' and e.data.get('loc') == RLOC]
         recs = [e.data.get('value') for e in evs if e.kind == 'assign' and isinstance(e.data.get('value'), Fresh) and e.data['value'].kind in ('dict', 'call:dict')]
-        if len(recs) != 1 or recs[0].items:
+        seeded = False
+        if len(recs) == 1 and recs[0].items and all(isinstance(it_, TupleT) and len(it_.items) == 2 and it_.items[0] == Const('timestep')
+                                                    for it_ in recs[0].items) and len(recs[0].items) == 1:
+            seeded = True       # the record is allocated with its timestep entry: {'timestep': t}
+        if len(recs) != 1 or (recs[0].items and not seeded):
             viol('R-FRESH', 'fresh-record-per-collection', f"collect() must start from a new empty dict on every call (found {recs!r})", cx.where(col))
             continue
         D = recs[0]
         # timestep
         ts = [e for e in evs if e.kind == 'store' and strip_versions(e.data.get('target')) == D and e.data.get('key') == Const('timestep')]
+        if seeded:
+            class _Seed:            # the allocation plays the role of the store D['timestep'] = value
+                data = {'value': D.items[0].items[1]}
+            ts = [_Seed()] + ts
         inc = ATruthy(Attr(self_s, 'includeTimestep'))
         want_ts = Attr(Attr(Attr(self_s, 'model'), 'systems'), 'timestep')
         alt_ts = Attr(Attr(self_s, 'model'), 'timestep')
@@ -75,19 +83,51 @@ def run(cx: Cx):
             if ts:
                 viol('R-GUARD', 'timestep-recorded-when-configured', "a timestep is recorded although includeTimestep is off", cx.where(col))
         # agents loop
+        agent_update = None
         loops = [e for e in evs if e.kind == 'loop']
         al = [lp for lp in loops if order_class(lp.data.get('iter'), agents) != 'unrelated']
-        if len(al) != 1 or order_class(al[0].data.get('iter'), agents) != 'inorder':
+        if not al:
+            # the pass over the agents written as one dictionary comprehension merged into the record:
+            # D.update({key: r for key in agents if (r := agentFunc(agents[key])) is not None})
+            ups = [e for e in evs if e.kind == 'store' and strip_versions(e.data.get('target')) == D and e.data.get('store') == 'update'
+                   and e.data.get('args') and isinstance(e.data['args'][0], Fresh) and e.data['args'][0].kind == 'dictcomp']
+            okc = False
+            if len(ups) == 1:
+                dc = ups[0].data['args'][0]
+                d = dc.detail
+                if isinstance(d, CompInfo) and len(d.gens) == 1 and order_class(d.gens[0][1], agents) == 'inorder':
+                    tgt, src, conds = d.gens[0]
+                    ssrc = strip_versions(src)
+                    if ssrc == agents:
+                        key, ag = tgt, Sub(agents, tgt)
+                    elif isinstance(tgt, TupleT) and len(tgt.items) == 2:
+                        key, ag = tgt.items
+                    else:
+                        key, ag = None, None
+                    calls = [e for e in evs if e.kind == 'call' and e.data.get('args') == (ag,) and
+                             ((e.data.get('callee_name') == '.agentFunc' and e.data.get('recv') == self_s) or
+                              strip_versions(e.data.get('func_term')) == Attr(self_s, 'agentFunc'))]
+                    if key is not None and len(calls) == 1:
+                        res = calls[0].data.get('result')
+                        from sa.terms import compare as _cmp
+                        okc = d.key == key and d.elt == res and _cmp(f_and(*conds), f_not(AIs(res, Const(None)))) is None
+            if okc:
+                agent_update = ups[0]
+            else:
+                viol('R-ITER', 'one-pass-over-the-live-agents', f"collect() must make one pass over model.environment.agents (found "
+                     f"{[repr(l.data.get('iter')) for l in loops]})", cx.where(col))
+                continue
+        elif len(al) != 1 or order_class(al[0].data.get('iter'), agents) != 'inorder':
             viol('R-ITER', 'one-pass-over-the-live-agents', f"collect() must make one pass over model.environment.agents (found "
                  f"{[repr(l.data.get('iter')) for l in loops]})", cx.where(col))
             continue
-        lp = al[0]
-        iters = [e for e in evs if e.kind == 'iter' and e.node is lp.node]
-        ends = [e for e in evs if e.kind == 'endloop' and e.node is lp.node]
+        lp = al[0] if al else None
+        iters = [e for e in evs if e.kind == 'iter' and e.node is lp.node] if lp is not None else []
+        ends = [e for e in evs if e.kind == 'endloop' and e.node is lp.node] if lp is not None else []
         if any(e.data.get('how') != 'exhausted' for e in ends):
             viol('R-ITER', 'every-agent-visited', "collect() leaves the loop over the agents early", cx.where(col, lp.line))
             continue
-        bounds = [evs.index(e) for e in iters] + [evs.index(ends[-1])]
+        bounds = ([evs.index(e) for e in iters] + [evs.index(ends[-1])]) if lp is not None else []
         bad = False
         for k, it_ev in enumerate(iters):
             seg = evs[bounds[k]:bounds[k + 1]]
@@ -124,7 +164,8 @@ def run(cx: Cx):
         cf_none = AIs(Attr(self_s, 'compositeFunc'), Const(None))
         cc = [e for e in evs if e.kind == 'call' and (e.data.get('callee_name') == '.compositeFunc' or
                                                      strip_versions(e.data.get('func_term')) == Attr(self_s, 'compositeFunc'))]
-        upd = [e for e in evs if e.kind == 'store' and strip_versions(e.data.get('target')) == D and e.data.get('store') == 'update']
+        upd = [e for e in evs if e.kind == 'store' and strip_versions(e.data.get('target')) == D and e.data.get('store') == 'update'
+               and e is not agent_update]
         if implies(p.cond, cf_none) is None:
             if cc or upd:
                 viol('R-GUARD', 'composite-only-when-configured', "compositeFunc is called although it is None", cx.where(col))
